@@ -504,6 +504,48 @@ pub fn run(tier: Tier) -> i32 {
         let sp: Vec<(Vec<String>, Vec<u8>)> = cs.iter().enumerate().filter(|(i, c)| i % 5 == 0 && c.spectrum < FIRST_BIG).map(|(_, c)| (combined_args(c), text_of(&spectra()[c.spectrum]).into_bytes())).collect();
         super::spelling_part(&mut rep, "C13", "every fifth option combination of the main part", &sp, &scratch);
     }
+    // neighbouring entries that are nearly, but not exactly, equal - printed with enough decimals to
+    // tell them apart: view (alone, masked, normalized) gives every entry its own value
+    {
+        let vals = [1e-17, 3e-17, 9e-17, 1.1e-16, 2e-16, 2.0000000000000002e-16, 2.5, 2.5000000000000004, 2.5, 0.1, 0.10000000000000002, 7.0];
+        let x = RefArray { shape: vec![3, 4], data: vals.to_vec() };
+        let input = format!("#SHAPE=<3/4>\n{}\n", vals.iter().map(|v| format!("{v:e}")).collect::<Vec<_>>().join(" "));
+        let mut n = 0u64;
+        for opts in [vec![], vec!["--mask-monomorphic"], vec!["--normalize"], vec!["--mask-monomorphic", "--normalize"]] {
+            n += 1;
+            let mut a = vec!["view", "--precision", "24"];
+            a.extend(opts.iter().copied());
+            let o = run_sfs(&a, Stdin::Bytes(input.as_bytes()), &scratch);
+            let mut expect = x.clone();
+            if opts.contains(&"--mask-monomorphic") {
+                expect.data[0] = 0.0;
+                expect.data[11] = 0.0;
+            }
+            if opts.contains(&"--normalize") {
+                let t: f64 = expect.data.iter().sum();
+                for v in expect.data.iter_mut() {
+                    *v /= t;
+                }
+            }
+            let got = crate::subject::parse_out(&o);
+            let ok = matches!(&got, Ok(g) if g.shape == expect.shape && g.data.iter().zip(&expect.data).all(|(a, b)| (a - b).abs() <= 1e-24 + 4.0 * f64::EPSILON * b.abs()));
+            if !ok {
+                rep.violation(
+                    "C13|cli|nearly-equal-neighbours-not-reproduced".to_string(),
+                    format!("{a:?} on {vals:?}: {:?}, expected {:?}", got.as_ref().map(|g| &g.data), expect.data),
+                    J::obj([("kind", J::s("c13-near-equal")), ("argv", J::strs(&a))]),
+                );
+            }
+        }
+        rep.part(Part {
+            name: "cli: nearly equal neighbours at 24 decimals".into(),
+            evaluations: n,
+            nontrivial: n,
+            note: "a 3x4 spectrum whose neighbouring entries differ by less than 2.2e-16 (absolutely, or by one unit in the last place) through view, view --mask-monomorphic, view --normalize and both, printed with 24 decimals: every entry within 4 ulp of the reference".into(),
+            exhaustive: true,
+            extra: vec![],
+        });
+    }
     // refused combinations: a projection target whose length is not the number of axes that are left
     // after marginalization - also when it is the smallest target (all ones), also with masking and
     // normalization behind it
